@@ -9,7 +9,7 @@ from sa.formula import Formula, Unrecognised
 from sa.paths import Path, U, strip_v
 from sa.report import Ctx
 from rules import generic as G
-from rules.common import S, appends, enum_paths, fact_where, find_calls, label_source, loops_of
+from rules.common import flatten_check, S, appends, enum_paths, fact_where, find_calls, label_source, loops_of
 
 EXPLANATION = (
     "Decides: (1) ranking – the list handed to Ap._calculate_tp_fp is ordered by one stable sort whose key is the estimate's "
@@ -80,24 +80,7 @@ def rule_ranking(ctx: Ctx) -> None:
                   fi=fi, expected="key=lambda x: x.estimated_object.semantic_score, reverse=True", found=f"key={kt or (S(key) if key is not None else None)}, reverse={S(rev) if rev is not None else None}",
                   sample={"key": kt, "reverse": S(rev) if rev is not None else None})
         # the ranked list is what was collected from the input (flat or nested): every frame's list, each result once
-        cdp = {S(c[0]): c[1] for c in p.conds if isinstance(c, tuple)}
-        nonempty, first_is_list = cdp.get("truthy:object_results"), cdp.get("isinstance:object_results[0],list")
-        lps_all = [e for i, e in enumerate(p.effects) if i < ti and e.kind == "loop"]
-        last_asg = [S(e.value) for i, e in enumerate(p.effects) if i < ti and e.kind == "assign" and e.recv == rname and not S(e.value).startswith("sorted(")]
-        if nonempty is not None and (nonempty is False or first_is_list is not None):
-            is_nested = bool(nonempty and first_is_list)
-            if is_nested:
-                okc = len(lps_all) == 1 and S(lps_all[0].text) == "object_results" and last_asg[-1:] in (["[]"], ["list()"])
-                var = U(lps_all[0].node.target) if lps_all and isinstance(lps_all[0].node.target, ast.Name) else "?"
-                okc = okc and all([(x.kind, strip_v(x.recv), x.name, S(x.value)) for x in bp.effects if x.kind in ("aug", "assign", "store")] == [("aug", rname, "Add", var)] and not bp.conds and bp.exit == ("fall",)
-                                  for bp in lps_all[0].body)
-                ctx.check(okc, "C04-ranking", "Ap.__init__", "collects:nested", f"nested (per-frame) input: the ranked list `{rname}` is not a fresh list to which every frame's list is added once, unconditionally", fi=fi,
-                          expected="all = []; for frame in object_results: all += frame", found=f"init {last_asg[-1:]}, loops {[S(e.text) for e in lps_all]}")
-            else:
-                ctx.check(not lps_all and last_asg[-1:] == ["object_results"], "C04-ranking", "Ap.__init__", f"collects:flat:{int(bool(nonempty))}",
-                          f"flat (or empty) input: the ranked list is `{last_asg[-1:]}` after {len(lps_all)} loop(s); expected the input list itself", fi=fi)
-        else:
-            ctx.check(False, "C04-ranking", "Ap.__init__", "collects:dispatch", f"flat / nested input is not told apart by `len(object_results) == 0 or not isinstance(object_results[0], list)` on [{p.cond_text()[:100]}]", fi=fi)
+        flatten_check(ctx, "C04-ranking", "Ap.__init__", fi, p, ti, rname)
         if inst == "nested":
             lps = [e for i, e in enumerate(p.effects) if i < ti and e.kind == "loop"]
             if lps:
